@@ -25,6 +25,7 @@ func (p *Prog) allTopLevel() []string {
 func checkC05(c *Check) {
 	c.checkBounds("C05.1", c.P.allTopLevel(), 120)
 	c.timerDiscipline("C05.1 nil-dereference")
+	c.dispatchTables("C05.1 nil-function-call")
 	c.blockingInventory("C05.2 interruptible-waits")
 	c.dialSingleResult("C05.2 dial-result")
 	c.checkSpawnJoin("C05.2 spawn-join")
